@@ -49,6 +49,10 @@ def families(tier):
         {'name': 'B10', 'params': {'mut_paths': [], 'hist': 'BB', 'universe': ['o', 'o/d', 'o/d/z'], 'kinds': ['is_dir', 'list_dir', 'exists']}, 'weight': 1},
         # every query kind inside a failing (caught) build_file function, on its own fresh parent directory
         {'name': 'B2', 'params': {'mut_paths': [], 'hist': 'BB', 'inner_kinds': ['get_size', 'exists', 'read_m', 'walk_bu']}, 'weight': 2},
+        # a function that asks about a path (HASH / METADATA read, existence, listing of its directory) before its own nested
+        # build_file creates it
+        {'name': 'A13', 'params': {'mut_paths': [], 'hist': 'BBB', 'kinds': ['read_h', 'read_m', 'exists', 'list_dir', 'get_size'], 'targets': ['o/d/g', 'o/f'],
+                                   'modes': ['ok'], 'universe': ['o', 'o/d']}, 'weight': 1},
         {'name': 'B8', 'params': {'mut_paths': ['in/x', 'in/y', 'o/f']}, 'weight': 2},
         {'name': 'N3', 'params': {'hist': 'BBB', 'universe': UN3, 'kinds': ['is_dir', 'list_dir', 'exists'], 'roles': ['o', 'o/d', 'o/m'], 'mut_paths': []}, 'weight': 3},
     ]
